@@ -49,6 +49,7 @@ NPROG = 10
 NAMES = ["P%d" % i for i in range(NPROG)]
 YEARS = [2020.0, 2021.0, 2023.0, 2025.5]
 EPS = [0.5, 0.1, 1e-2, 1e-3, 1e-4, 3e-5, 1e-5, 5e-6, 2e-6, 1e-6, 1e-7, 1e-9]
+E2E_NAMES = ["Testing - pharmacies", "Testing - clinics", "Testing - outreach", "Adherence"]  # programs of the library 'udt' model
 LOOSE = "loose-total-tolerance"  # root cause: SLSQP acc=1e-5 and np.isclose default rtol=1e-5 instead of the documented 1e-6
 
 _CACHE = {}
@@ -175,9 +176,9 @@ def _draw_proposal(draw, lb, ub, s, scale):
 class _Pool:
     """programs not used yet; pop() draws one of them"""
 
-    def __init__(self, draw):
+    def __init__(self, draw, nprog=NPROG):
         self.draw = draw
-        self.left = list(range(NPROG))
+        self.left = list(range(nprog))
 
     def __len__(self):
         return len(self.left)
@@ -231,9 +232,9 @@ def package_spec(draw, progs, scale, year, name):
 
 
 @st.composite
-def plain_spec(draw, prog, spend, scale, bad):
+def plain_spec(draw, prog, spend, scale, bad, years=None):
     """bad=True also draws bounds that exclude the initial spend (InvalidInitialConditions expected)"""
-    years = sorted(draw(st.lists(st.sampled_from(YEARS), min_size=1, max_size=3, unique=True)))
+    years = sorted(draw(st.lists(st.sampled_from(YEARS), min_size=1, max_size=3, unique=True))) if years is None else list(years)
     limit = draw(st.sampled_from(["abs", "abs", "rel"]))
     lower, upper, initial = [], [], []
     same = draw(st.booleans())
@@ -262,16 +263,18 @@ def plain_spec(draw, prog, spend, scale, bad):
 
 
 @st.composite
-def tsc_cases(draw):
+def tsc_cases(draw, kind="tsc", nprog=NPROG):
+    """kind 'tsc': constraint machinery driven step by step; kind 'e2e': the same problem handed to at.optimize() on a small project"""
+    e2e = kind == "e2e"
     scale = draw(scale_s)
-    spend = [scale * u for u in draw(st.lists(unit, min_size=NPROG, max_size=NPROG))]
+    spend = [scale * u for u in draw(st.lists(unit, min_size=nprog, max_size=nprog))]
     if draw(st.integers(0, 15)) == 0:
-        spend = [0.0] * NPROG
+        spend = [0.0] * nprog
     src = draw(st.sampled_from(["progset", "dict", "dict", "none"]))
-    start = draw(st.sampled_from([2018.0, 2020.0, 2020.0]))
+    start = 2020.0 if e2e else draw(st.sampled_from([2018.0, 2020.0, 2020.0]))
     bad = draw(st.integers(0, 9)) == 0
-    pool = _Pool(draw)
-    nadj = draw(st.sampled_from([1, 2, 2, 3, 3, 4, 5, 6, 8, 10]))
+    pool = _Pool(draw, nprog)
+    nadj = draw(st.sampled_from([1, 2, 2, 3, 3, 4] if e2e else [1, 2, 2, 3, 3, 4, 5, 6, 8, 10]))
     adj = []
     npk = 0
     for _ in range(nadj):
@@ -293,7 +296,7 @@ def tsc_cases(draw):
             progs = [pool.pop() for _ in range(k)]
             adj.append(draw(package_spec(progs, scale, draw(st.sampled_from(YEARS)), "pkg%d" % npk)))
             npk += 1
-    case = {"kind": "tsc", "scale": scale, "spend": spend, "src": src, "start": start, "adj": adj}
+    case = {"kind": kind, "scale": scale, "spend": spend, "src": src, "start": start, "adj": adj}
     m = _model(case, with_constraint=False)
     years = sorted(m["entries"])
     con = {"t": None, "total": None, "bf": 1.0}
@@ -321,6 +324,12 @@ def tsc_cases(draw):
     else:
         con["bf"] = draw(st.one_of(st.sampled_from([1.0, 1.0, 1.0, 0.5, 2.0, 1.3]), st.floats(min_value=0.1, max_value=3.0)))
     case["con"] = con
+    if e2e:
+        # tiny optimizations: a flat objective (measured in the first adjusted year / before anything can react) or one that moves, 1..3 iterations
+        case["meas"] = draw(st.sampled_from(["flat", "flat", "spend", "outcome"]))
+        case["maxiters"] = draw(st.integers(1, 3))
+        case["randseed"] = draw(st.integers(0, 3))
+        return case
     nx = len(m["adjustables"])
     props = []
     for _ in range(draw(st.sampled_from([1, 1, 2]))):
@@ -330,11 +339,34 @@ def tsc_cases(draw):
     case["props"] = props
     # later uses of the very same adjustment / constraint / Optimization objects with other spending (budget sweep, other scenario)
     reuse = []
+    cur = list(adj)
     for _ in range(draw(st.sampled_from([0, 0, 1, 1, 2]))):
         if draw(st.integers(0, 2)) > 0:
-            reuse.append({"mode": "scale", "factor": draw(st.one_of(st.sampled_from([2.0, 0.5, 3.0, 1.0, 1.5, 0.0]), st.floats(min_value=0.1, max_value=4.0)))})
+            r = {"mode": "scale", "factor": draw(st.one_of(st.sampled_from([2.0, 0.5, 3.0, 1.0, 1.5, 0.0, 1.0]), st.floats(min_value=0.1, max_value=4.0)))}
+            sp = [r["factor"] * v for v in spend]
         else:
-            reuse.append({"mode": "respend", "spend": [scale * u for u in draw(st.lists(unit, min_size=NPROG, max_size=NPROG))]})
+            r = {"mode": "respend", "spend": [scale * u for u in draw(st.lists(unit, min_size=NPROG, max_size=NPROG))]}
+            sp = r["spend"]
+        # between two uses some adjustments are replaced in optimization.adjustments by NEW objects with the same name
+        # (package: other members / initial spends / limits; plain: other bounds); years stay, so explicit constraint years remain valid
+        repl = []
+        for i, a in enumerate(cur):
+            if a["type"] == "paired" or draw(st.integers(0, 2)) > 0:
+                continue
+            if a["type"] == "plain":
+                new = draw(plain_spec(a["prog"], sp[a["prog"]], scale, bad, years=a["years"]))
+            else:
+                members = list(a["progs"])
+                if len(pool) and draw(st.booleans()):
+                    members[draw(st.integers(0, len(members) - 1))] = pool.pop()
+                if len(members) > 2 and draw(st.integers(0, 2)) == 0:
+                    members = members[:-1]
+                new = draw(package_spec(members, scale, a["year"], a["name"]))
+            repl.append([i, new])
+            cur[i] = new
+        r["replace"] = repl
+        r["assign"] = draw(st.booleans())
+        reuse.append(r)
     case["reuse"] = reuse
     return case
 
@@ -367,7 +399,7 @@ def paired_cases(draw):
 
 
 def strategy(tier):
-    return st.one_of(csb_cases(), csb_cases(), csb_cases(), tsc_cases(), tsc_cases(), pkg_cases(), paired_cases())
+    return st.one_of(csb_cases(), csb_cases(), csb_cases(), csb_cases(), tsc_cases(), tsc_cases(), tsc_cases(), pkg_cases(), paired_cases(), tsc_cases(kind="e2e", nprog=len(E2E_NAMES)))
 
 
 # --------------------------------------------------------------------------- reference model (own arithmetic)
@@ -422,8 +454,11 @@ def _model(case, with_constraint=True):
         return out
     con = case["con"]
     years = sorted(entries) if con["t"] is None else list(con["t"])
+    out["missing_years"] = [t for t in years if t not in entries]
     totals = {}
     for t in years:
+        if t not in entries:
+            continue
         idx = None if con["t"] is None else con["t"].index(t)
         given = None if (con["total"] is None or idx is None) else con["total"][idx]
         base = math.fsum(e["v0"] for e in entries[t]) if given is None else float(given)
@@ -447,17 +482,18 @@ def _sum_bucket(err, total):
     return LOOSE if err <= 1e-8 + 1.0001e-5 * abs(total) else "total-violated"
 
 
-def _instructions(case):
-    at, pg = _env()
+def _instructions(case, pg=None, names=NAMES):
+    at, pg0 = _env()
+    pg = pg0 if pg is None else pg
     spend = case["spend"]
     src = case["src"]
-    for i, nm in enumerate(NAMES):
+    for i, nm in enumerate(names):
         v = float(spend[i])
         pg.programs[nm].spend_data = at.TimeSeries(t=[2015.0], vals=[3.0 * v + 1.0 if src == "dict" else v])
     if src == "progset":
         return at.ProgramInstructions(start_year=case["start"], alloc=pg)
     if src == "dict":
-        return at.ProgramInstructions(start_year=case["start"], alloc={nm: float(spend[i]) for i, nm in enumerate(NAMES)})
+        return at.ProgramInstructions(start_year=case["start"], alloc={nm: float(spend[i]) for i, nm in enumerate(names)})
     return at.ProgramInstructions(start_year=case["start"])
 
 
@@ -465,13 +501,13 @@ def _one(lst):
     return lst[0] if len(lst) == 1 else list(lst)
 
 
-def _make_adjustment(at, a):
+def _make_adjustment(at, a, names=NAMES):
     if a["type"] == "plain":
         init = None if all(v is None for v in a["initial"]) else _one(a["initial"])
-        return at.SpendingAdjustment(NAMES[a["prog"]], _one(a["years"]), a["limit"], _one([float(v) for v in a["lower"]]), _one([_f(v) for v in a["upper"]]), init)
+        return at.SpendingAdjustment(names[a["prog"]], _one(a["years"]), a["limit"], _one([float(v) for v in a["lower"]]), _one([_f(v) for v in a["upper"]]), init)
     if a["type"] == "paired":
-        return at.PairedLinearSpendingAdjustment([NAMES[p] for p in a["progs"]], list(a["years"]))
-    return at.SpendingPackageAdjustment(a["name"], a["year"], [NAMES[p] for p in a["progs"]], initial_spends=[float(v) for v in a["initial"]], min_props=a["min_props"], max_props=a["max_props"], min_total_spend=a["min_total"], max_total_spend=_f(a["max_total"]), fix_props=a["fix_props"])
+        return at.PairedLinearSpendingAdjustment([names[p] for p in a["progs"]], list(a["years"]))
+    return at.SpendingPackageAdjustment(a["name"], a["year"], [names[p] for p in a["progs"]], initial_spends=[float(v) for v in a["initial"]], min_props=a["min_props"], max_props=a["max_props"], min_total_spend=a["min_total"], max_total_spend=_f(a["max_total"]), fix_props=a["fix_props"])
 
 
 def _snapshot(inst):
@@ -483,7 +519,10 @@ def _x_from(prop, m, scale, totals=None):
     adjs = m["adjustables"]
     span = max([scale] + [abs(v) for v in (totals or {}).values() if math.isfinite(v)]) * 2.0
     xs = []
-    for a, u in zip(adjs, prop["u"]):
+    # after an adjustment was replaced the number of adjustables may differ from the number of drawn unit numbers: recycle them
+    us = [prop["u"][i % len(prop["u"])] if prop["u"] else 0.5 for i in range(len(adjs))]
+    prop = dict(prop, u=us)
+    for a, u in zip(adjs, us):
         lo, hi, v0 = a["lo"], a["hi"], a["v0"]
         if a["kind"] == "ramp":
             base = {"initial": 0.0, "lower": -1.0, "upper": 1.0}.get(prop["mode"], 2.0 * u - 1.0)
@@ -505,7 +544,7 @@ def _x_from(prop, m, scale, totals=None):
         xs.append(min(max(x, lo), top))
     mode = prop["mode"]
     if mode == "zero-single":
-        k = prop["k"]
+        k = prop["k"] % max(1, len(xs))
         xs = [x if (i == k or adjs[i]["kind"] != "plain") else adjs[i]["lo"] for i, x in enumerate(xs)]
     if mode == "near" and totals:
         # plain adjustables of the first constrained year are water-filled to total*(1+eps) inside their limits
@@ -645,12 +684,29 @@ def _check_tsc(case):
 
     # ---- uses: the first with the case's spending, later ones with scaled / different spending in the same objects,
     # each following optimize()'s own sequence get_initialization -> get_hard_constraints -> update -> constrain
-    spends = [case["spend"]] + [_use_spend(case, r) for r in case.get("reuse", [])]
+    reuse = case.get("reuse", [])
+    spends = [case["spend"]] + [_use_spend(case, r) for r in reuse]
     labels.append("uses:%d" % len(spends))
     nontrivial = False
     previous = None
+    cur_adj = list(case["adj"])
     for ui, spend in enumerate(spends):
-        ucase = dict(case, spend=spend)
+        if ui > 0 and reuse[ui - 1].get("replace"):
+            # same-named NEW adjustment objects are put into optimization.adjustments (item assignment or a new list)
+            new_objs = list(opt.adjustments)
+            for i, spec in reuse[ui - 1]["replace"]:
+                try:
+                    new_objs[i] = _make_adjustment(at, spec)
+                except AssertionError:
+                    labels.append("replacement-constructor-rejected")
+                    continue
+                cur_adj[i] = spec
+                labels.append("replaced:" + spec["type"])
+                if not reuse[ui - 1].get("assign"):
+                    opt.adjustments[i] = new_objs[i]
+            if reuse[ui - 1].get("assign"):
+                opt.adjustments = new_objs
+        ucase = dict(case, spend=spend, adj=list(cur_adj))
         desc = "use %d of the same Optimization objects (default spending %r, earlier uses %r); case %r" % (ui + 1, spend, spends[:ui], case)
         nt, outcome = _tsc_use(ucase, opt, labels, desc)
         nontrivial = nontrivial or nt
@@ -675,6 +731,16 @@ def _tsc_use(case, opt, labels, desc):
     if m["nanbound"]:
         labels.append("nan-bound(0*inf relative)")
     inst = _instructions(case)
+    if m["missing_years"]:
+        # an explicitly constrained year lost its last adjustment (replacement): documented to be rejected up-front
+        try:
+            x0 = opt.get_initialization(pg, inst)[0]
+            opt.get_hard_constraints(x0, inst)
+        except Exception:  # noqa
+            labels.append("constraint-year-without-adjustment-rejected")
+            return False, "rejected-year"
+        raise Violation(ID, "tsc/constraint-year-without-adjustment-accepted", "years %r have no adjustment but no error was raised; %s" % (m["missing_years"], desc))
+
     # ---- initialisation: impossible from the outset -> InvalidInitialConditions
     exp_invalid = any((a["v0"] < a["lo"] or a["v0"] > a["hi"]) for a in m["adjustables"])
     try:
@@ -961,11 +1027,123 @@ def _check_paired(case):
     return {"nontrivial": nontrivial, "labels": labels}
 
 
+def _env_e2e():
+    if "e2e" not in _CACHE:
+        at, _ = _env()
+        P = at.Project(framework=at.LIBRARY_PATH / "udt_framework.xlsx", databook=at.LIBRARY_PATH / "udt_databook.xlsx", do_run=False)
+        P.load_progbook(at.LIBRARY_PATH / "udt_progbook.xlsx")
+        P.settings.update_time_vector(start=2018.0, end=2026.0, dt=0.25)
+        assert list(P.progsets[0].programs.keys()) == E2E_NAMES
+        _CACHE["e2e"] = P
+    return _CACHE["e2e"]
+
+
+def _check_e2e(case):
+    """the allocation RETURNED by at.optimize() (tiny iteration budgets, often x_opt == x0) meets the constraint, or the call raises"""
+    at, _ = _env()
+    from atomica.optimization import FailedConstraint, UnresolvableConstraint, InvalidInitialConditions
+
+    P = _env_e2e()
+    names = E2E_NAMES
+    pg = P.progsets[0]
+    m = _model(case)
+    con = case["con"]
+    labels = ["kind:e2e", "adjustments:%d" % len(case["adj"]), "alloc-from:" + case["src"], "objective:" + case["meas"], "maxiters:%d" % case["maxiters"], "constrained-years:%d" % len(m["totals"])]
+    types = sorted(set(a["type"] for a in case["adj"]))
+    labels += ["has:" + t for t in types]
+    bfs = con["bf"] if isinstance(con["bf"], list) else [con["bf"]]
+    if any(b != 1.0 for b in bfs):
+        labels.append("budget-factor!=1")
+    if con["total"] is not None and any(v is not None for v in con["total"]):
+        labels.append("total:explicit")
+    if any(a["type"] == "plain" and any(v is not None for v in a["initial"]) for a in case["adj"]):
+        labels.append("initial:explicit")
+    desc = "case %r" % (case,)
+    try:
+        adjustments = [_make_adjustment(at, a, names) for a in case["adj"]]
+    except AssertionError:
+        return {"nontrivial": False, "labels": labels + ["package-constructor-rejected"]}
+    first = min([min(a["years"]) if "years" in a else a["year"] for a in case["adj"]])
+    firstprog = names[(case["adj"][0].get("progs") or [case["adj"][0].get("prog")])[0]]
+    if case["meas"] == "flat":
+        meas = at.MaximizeCascadeStage(None, first)  # measured in the year the spending first changes: nothing can react yet
+    elif case["meas"] == "spend":
+        meas = at.MinimizeMeasurable(firstprog, [2020.0, 2026.0])
+    else:
+        meas = at.MaximizeCascadeStage(None, [2020.0, 2026.0])
+    constraint = at.TotalSpendConstraint(total_spend=con["total"], t=con["t"], budget_factor=con["bf"])
+    opt = at.Optimization("c14", adjustments=adjustments, measurables=meas, constraints=constraint, maxiters=case["maxiters"])
+    inst = _instructions(case, pg, names)
+    given = _snapshot(inst)
+
+    exp_invalid = any((a["v0"] < a["lo"] or a["v0"] > a["hi"]) for a in m["adjustables"])
+    exp_unres, borderline, anyzero = False, False, False
+    for t, total in m["totals"].items():
+        lo = math.fsum(e["lo"] for e in m["entries"][t])
+        hi = math.fsum(e["hi"] for e in m["entries"][t])
+        anyzero = anyzero or total == 0
+        exp_unres = exp_unres or lo > total or hi < total
+        for edge in (lo, hi):
+            if math.isfinite(edge) and max(abs(edge), abs(total)) > 0 and abs(edge - total) <= 1e-12 * max(abs(total), abs(edge)) and len(m["entries"][t]) > 1:
+                borderline = True
+    try:
+        out = at.optimize(P, opt, parset=P.parsets[0], progset=pg, instructions=inst, optim_args={"randseed": case["randseed"]})
+    except (InvalidInitialConditions, UnresolvableConstraint, FailedConstraint, AssertionError) as e:
+        labels.append("rejected:" + type(e).__name__)
+        if isinstance(e, (InvalidInitialConditions, UnresolvableConstraint)) and not (exp_invalid or exp_unres or borderline or m["nanbound"] or anyzero):
+            labels.append("rejected-though-feasible")  # e.g. a non-finite objective at the initial point
+        return {"nontrivial": exp_invalid or exp_unres, "labels": labels}
+    except Exception as e:  # noqa
+        if anyzero or m["nanbound"] or exp_invalid or exp_unres:
+            return {"nontrivial": True, "labels": labels + ["rejected:other:" + type(e).__name__]}
+        raise Violation(ID, "e2e/crash/" + type(e).__name__, "at.optimize ended in %r; %s" % (e, desc))
+    if (exp_invalid or exp_unres) and not borderline and not m["nanbound"]:
+        raise Violation(ID, "e2e/impossible-constraint-not-reported", "InvalidInitialConditions expected=%s UnresolvableConstraint expected=%s but at.optimize returned; totals %r; %s" % (exp_invalid, exp_unres, m["totals"], desc))
+    labels.append("returned")
+    changed = False
+    adjusted = set()
+    for t, total in m["totals"].items():
+        tolb = 1e-9 * max(1.0, abs(total))
+        tot_now = 0.0
+        for e in m["entries"][t]:
+            vals = [out.alloc[names[p]].get(t) if names[p] in out.alloc else None for p in e["progs"]]
+            adjusted.update(names[p] for p in e["progs"])
+            if any(v is None or not math.isfinite(v) for v in vals):
+                raise Violation(ID, "e2e/garbage-allocation", "year %r %s: returned allocation %r; %s" % (t, e["key"], vals, desc))
+            v = math.fsum(vals)
+            tot_now += v
+            lo = 0.0 if math.isnan(e["lo"]) else e["lo"]
+            hi = INF if math.isnan(e["hi"]) else e["hi"]
+            if v < lo - tolb or v > hi + tolb:
+                raise Violation(ID, "bound-violated", "at.optimize returned, year %r %s: spend %r outside [%r,%r]; %s" % (t, e["key"], v, lo, hi, desc))
+            if e["kind"] == "package" and v > 0:
+                pm = _pkg_model(e["spec"])
+                for p, val, mn, mx in zip(e["progs"], vals, pm["minp"], pm["maxp"]):
+                    exc = max(mn - val / v, val / v - mx)
+                    if not pm["fix"] and exc > 1e-9:
+                        raise Violation(ID, LOOSE if exc <= 1.2e-5 else "package-share-violated", "at.optimize returned, year %r package %s member %s share %r outside [%r,%r]; %s" % (t, e["key"], names[p], val / v, mn, mx, desc))
+        err = abs(tot_now - total)
+        if err > 1e-6 * abs(total) + (1e-9 if total == 0 else 0.0):
+            raise Violation(ID, _sum_bucket(err, total), "at.optimize returned an allocation that sums to %r in %r, required total %r (relative error %.3g); %s" % (tot_now, t, total, err / total if total else INF, desc))
+        if abs(math.fsum(e["v0"] for e in m["entries"][t]) - total) > 1e-9 * max(1.0, abs(total)):
+            changed = True  # the constraint has to move the initial allocation (budget factor, explicit total)
+    for nm, (ts, vs) in given.items():
+        if nm not in adjusted and nm in out.alloc and (list(out.alloc[nm].t), list(out.alloc[nm].vals)) != (ts, vs):
+            raise Violation(ID, "e2e/untouched-spending-changed", "program %s is not adjusted but its allocation went %r -> %r; %s" % (nm, (ts, vs), (out.alloc[nm].t, out.alloc[nm].vals), desc))
+    if _snapshot(inst) != given:
+        raise Violation(ID, "e2e/input-instructions-mutated", "the caller's instructions were changed in place: %r -> %r; %s" % (given, _snapshot(inst), desc))
+    if changed:
+        labels.append("constraint-moves-initial-allocation")
+    return {"nontrivial": changed, "labels": labels}
+
+
 def check(case):
     kind = case["kind"]
     with np.errstate(all="ignore"):
         if kind == "csb":
             return _check_csb(case)
+        if kind == "e2e":
+            return _check_e2e(case)
         if kind == "tsc":
             return _check_tsc(case)
         if kind == "pkg":
